@@ -37,13 +37,22 @@ OptVal(m, name) == LET k == CHOOSE k \in 1..Len(m.opts) : m.opts[k][1] = name IN
 MetaN(m) == OptVal(m, "user_defined_controllers")
 DefaultUD == [name |-> "user_defined", kind |-> "range", min |-> 0, max |-> 44100, default |-> 0, members |-> <<>>,
               dep |-> 0, ranges |-> <<>>, defrange |-> <<0, 0>>, attached |-> FALSE]
+(* a target that is itself a user defined controller of a NESTED MetaModule takes that controller's rule in turn (the   *)
+(* chain ends at an ordinary controller, or at an unresolved mapping / an unexposed controller: the default rule)        *)
+RECURSIVE UDTarget(_, _)
 UDTarget(m, i) ==     \* <<controller record, unit>>
   LET mp == m.payload.mappings[i]  ms == m.payload.project.modules IN
   IF mp[1] = 0 \/ mp[1] >= Len(ms) THEN <<DefaultUD, 0>>
   ELSE LET tm == ms[mp[1] + 1] IN
        IF tm.kind = "none" \/ ~HasSpec(tm) THEN <<DefaultUD, 0>>
+       ELSE IF tm.mtype = "MetaModule" /\ mp[2] >= 5
+            THEN (IF mp[2] - 4 <= MetaN(tm) THEN UDTarget(tm, mp[2] - 4) ELSE <<DefaultUD, 0>>)
        ELSE IF mp[2] >= Len(Spec(tm).ctls) THEN <<DefaultUD, 0>>
        ELSE <<Spec(tm).ctls[mp[2] + 1], UnitOf(tm, Spec(tm).ctls[mp[2] + 1])>>
+(* the current value of the controller mapping i points at *)
+UDTargetVal(m, i) ==
+  LET mp == m.payload.mappings[i]  tm == m.payload.project.modules[mp[1] + 1] IN
+  IF tm.mtype = "MetaModule" /\ mp[2] >= 5 THEN tm.payload.udvals[mp[2] - 4] ELSE tm.ctl[mp[2] + 1]
 UDRaws(m) == [i \in 1..MetaN(m) |-> LET tg == UDTarget(m, i) IN ToRaw(tg[1], tg[2], m.payload.udvals[i])]
 
 AllRaws(m)  == IF m.mtype = "MetaModule" THEN Raws(m) \o UDRaws(m) ELSE Raws(m)
@@ -367,7 +376,7 @@ ApplyMetaCvals(m, cvals) ==       \* user defined controllers: CVAL 6.. for the 
                 LET tg == UDTarget(m, i)  tm == m.payload.project.modules IN
                 IF i <= n /\ 5 + i <= Len(cvals) THEN FromRaw(tg[1], tg[2], cvals[5 + i])
                 ELSE IF i <= n /\ tg[1].name # "user_defined"             \* no stored value: the target's current value
-                     THEN tm[m.payload.mappings[i][1] + 1].ctl[m.payload.mappings[i][2] + 1]
+                     THEN UDTargetVal(m, i)
                      ELSE 0]]
 ApplyCmid(m, d) ==
   LET k == Len(d) \div 8
